@@ -202,6 +202,9 @@ class EvolveStateVector(torch.autograd.Function):
             krylov_tolerance (float): tolerance for krylov_exp
             pulser_lindblads: unused, present for compatibility with EvolveDensityMatrix
         """
+        # krylov_exp normalises its input tensor in place: the backward pass needs
+        # the state this step starts from, with its own norm.
+        state_in = state.clone() if any(ctx.needs_input_grad[1:5]) else state
         res, ham = EvolveStateVector.evolve(
             dt,
             omegas,
@@ -212,7 +215,7 @@ class EvolveStateVector(torch.autograd.Function):
             krylov_tolerance,
             pulser_lindblads,
         )
-        ctx.save_for_backward(omegas, deltas, phis, interaction_matrix, state)
+        ctx.save_for_backward(omegas, deltas, phis, interaction_matrix, state_in)
         ctx.dt = dt
         ctx.tolerance = krylov_tolerance
         return res, ham
